@@ -8,10 +8,16 @@ import (
 	"fmt"
 	"net"
 	"net/url"
+	"os"
+	"path/filepath"
 	"strconv"
 	"strings"
+	"sync/atomic"
 	"time"
 
+	"github.com/coredhcp/coredhcp/config"
+	"github.com/coredhcp/coredhcp/handler"
+	"github.com/coredhcp/coredhcp/plugins"
 	"github.com/insomniacslk/dhcp/dhcpv4"
 	"github.com/insomniacslk/dhcp/dhcpv6"
 	"pgregory.net/rapid"
@@ -40,6 +46,9 @@ type OptCase struct {
 	// Others: option codes that other option plugins, listed earlier in the chain, have already put
 	// into the reply (with plausible values): they are none of this plugin's business
 	Others []int `json:"others,omitempty"`
+	// ViaFile: the plugin is configured the way an operator does it: a configuration file is
+	// written, read with config.Load, and plugins.LoadPlugins builds the handler
+	ViaFile bool `json:"viafile,omitempty"`
 }
 
 var relevant4 = []uint16{1, 3, 6, 26, 51, 66, 67, 108, 116, 119, 121}
@@ -75,6 +84,46 @@ func genLabel(t *rapid.T, max int) string {
 		b[n/2] = '-'
 	}
 	return string(b)
+}
+
+var c17FileSeq atomic.Int64
+
+// viaFile configures the plugin of the case through a configuration file: config.Load reads it and
+// plugins.LoadPlugins sets the plugin up; the handler returned is the single entry of the chain
+func viaFile(c *OptCase) (handler.Handler4, handler.Handler6, error) {
+	registerBuiltins()
+	sec, listen := "server4", "127.0.0.1:6767"
+	if c.V6 {
+		sec, listen = "server6", "[::1]:5470"
+	}
+	val := ""
+	if len(c.Args) > 0 {
+		val = " '" + strings.ReplaceAll(strings.Join(c.Args, " "), "'", "''") + "'"
+	}
+	text := fmt.Sprintf("%s:\n  listen: '%s'\n  plugins:\n    - %s:%s\n", sec, listen, c.Plugin, val)
+	path := filepath.Join(c19Scratch(), fmt.Sprintf("c17-%d.yml", c17FileSeq.Add(1)))
+	if err := os.WriteFile(path, []byte(text), 0o644); err != nil {
+		return nil, nil, err
+	}
+	defer os.Remove(path)
+	conf, err := config.Load(path)
+	if err != nil {
+		return nil, nil, fmt.Errorf("config.Load: %w\n%s", err, text)
+	}
+	l4, l6, err := plugins.LoadPlugins(conf)
+	if err != nil {
+		return nil, nil, err
+	}
+	if c.V6 {
+		if len(l6) != 1 {
+			return nil, nil, fmt.Errorf("LoadPlugins returned %d DHCPv6 handlers for one plugin", len(l6))
+		}
+		return nil, l6[0], nil
+	}
+	if len(l4) != 1 {
+		return nil, nil, fmt.Errorf("LoadPlugins returned %d DHCPv4 handlers for one plugin", len(l4))
+	}
+	return l4[0], nil, nil
 }
 
 // optionalSpelling: the argument vector uses a spelling the plugin may accept or refuse (a search
@@ -126,6 +175,8 @@ var nbpURLs = []string{
 	"tftp://10.0.0.1/boot.img", "tftp://boot.example.com/dir/file", "http://[2001:db8:a::1]/nbp",
 	"http://[2001:db8:a::1]/nbp?params=a%20b", "tftp://[2001:db8::5]/f?params=console%3DttyS0", "https://h.example/x?params=one",
 	"//tftphost/path/to/file", "/just/a/path", "tftp://10.1.2.3:6969/x",
+	// variables the client expands (iPXE): a '$' is a character like any other
+	"http://10.0.0.254/boot.ipxe?mac=${mac}", "tftp://10.0.0.1/images/$arch/pxelinux.0", "http://boot.example/$HOME/x?params=${PATH}",
 }
 
 // genArgs draws an argument vector the plugin documents as valid
@@ -221,6 +272,7 @@ func GenOpt(t *rapid.T) OptCase {
 		}
 	}
 	c.Args = genArgs(t, c.Plugin, c.V6)
+	c.ViaFile = rapid.IntRange(0, 5).Draw(t, "via-file") == 0
 	c.HasPRL = rapid.IntRange(0, 3).Draw(t, "hasprl") > 0
 	if c.HasPRL {
 		rel, fil := relevant4, filler4
@@ -494,7 +546,14 @@ func ExecOpt(c OptCase) (res core.Result) {
 	if c.V6 {
 		return execOpt6(c, res)
 	}
-	h, err := p.Setup4(c.Args...)
+	var h handler.Handler4
+	var err error
+	if c.ViaFile {
+		h, _, err = viaFile(&c)
+		res.Classes = append(res.Classes, "via-config-file")
+	} else {
+		h, err = p.Setup4(c.Args...)
+	}
 	if err != nil && optionalSpelling(&c) {
 		res.Classes = append(res.Classes, "optional-spelling-refused")
 		return
@@ -633,7 +692,14 @@ func ExecOpt(c OptCase) (res core.Result) {
 
 func execOpt6(c OptCase, res core.Result) core.Result {
 	p := plug.ByName(c.Plugin)
-	h, err := p.Setup6(c.Args...)
+	var h handler.Handler6
+	var err error
+	if c.ViaFile {
+		_, h, err = viaFile(&c)
+		res.Classes = append(res.Classes, "via-config-file")
+	} else {
+		h, err = p.Setup6(c.Args...)
+	}
 	if err != nil && optionalSpelling(&c) {
 		res.Classes = append(res.Classes, "optional-spelling-refused")
 		return res
